@@ -5,10 +5,11 @@ Model of how a numeric constant in FPy source becomes a number (property C06).
   matchers that accept exactly what `re.fullmatch` accepts), `_sci_to_fraction`,
   `decnum_to_fraction`, `hexnum_to_fraction`, `digits_to_fraction`.
 * `fpy2/ast/fpyast.py`: `Decnum/Hexnum/Integer/Rational/Digits` with `as_rational`, `as_real`.
-* `fpy2/frontend/parser.py`: `_parse_constant` (a Python `float` constant is re-stringified with
-  `str(float)`), `_parse_unaryop` (negated-zero fold), `_parse_hexfloat/_rational/_digits`.
-* CPython: the tokenizer's numeric literal, `float(literal)` = round-to-nearest-even to binary64
-  (modelled with `Ctx.round` of the IEEE(11,64) context), `repr(float)` = shortest round-trip digits.
+* `fpy2/frontend/parser.py`: `_parse_constant` / `_parse_float_constant` / `_float_literal_text`
+  (the text of a float literal is re-read from the parsed source and normalised to a `Decnum`
+  spelling), `_parse_unaryop` (negated-zero fold), `_parse_integer_arg`,
+  `_parse_hexfloat/_rational/_digits`.
+* CPython: the tokenizer's numeric literal (digit groups with `_` separators, `e`/`E`, radix prefixes).
 
 Strings are `List Char` here (the `String` API wraps `toList`), so that the kernel can evaluate
 the model on concrete spellings.  Core Lean only.
@@ -165,13 +166,13 @@ def decnumCore (cs : List Char) : Except LErr Rat :=
     let i := if f.isSome && i0.isEmpty then ['0'] else i0
     sciToFraction g.sign i f g.exp 10 10
 
-/-- `hexnum_to_fraction(s)` after `s.strip()`; note that an empty integer part is *not*
-replaced by `'0'` here, so `0x.8` matches the pattern and then fails in `int('', 16)` -/
+/-- `hexnum_to_fraction(s)` after `s.strip()` -/
 def hexnumCore (cs : List Char) : Except LErr Rat :=
   match matchHex cs with
   | none => .error .value
   | some g =>
-    let (i, f) := splitDot g.mant
+    let (i0, f) := splitDot g.mant
+    let i := if f.isSome && i0.isEmpty then ['0'] else i0
     sciToFraction g.sign i f g.exp 16 2
 
 def decnum (cs : List Char) : Except LErr Rat := decnumCore (strip cs)
@@ -232,121 +233,13 @@ def Node.evalReal : Node → Except LErr LitVal
     | .rat r => pure (if r == 0 then .negZero else .rat (-r))
   | n => n.asReal
 
-/-! ### binary64 and `repr(float)` -/
-
-/-- the IEEE 754 binary64 context, round to nearest even, overflow to infinity -/
-def fp64 : Ctx :=
-  .efloat { es := 11, nbits := 64, inf := true, kind := .ieee, eoff := 0, rm := .rne, ov := .overflow,
-            k := some 0, nanValue := none, infValue := none }
-
-/-- `float(<decimal literal>)`: the exact rational of the spelling rounded once to binary64 -/
-def toF64 (r : Rat) : FV :=
-  match fp64.round (.frac r.num r.den) with
-  | .ok res => res.v
-  | .error _ => .nan false
-
-def natDigitsAux : Nat → Nat → List Char → List Char
-  | 0, _, acc => acc
-  | fuel + 1, n, acc =>
-    let acc := Char.ofNat (48 + n % 10) :: acc
-    if n < 10 then acc else natDigitsAux fuel (n / 10) acc
-
-/-- decimal digits of a natural number (`str(n)`) -/
-def natDigits (n : Nat) : List Char := natDigitsAux (n.log2 + 1) n []
-
-/-- `num/den ≥ 10^k` -/
-def geP10 (num den : Nat) (k : Int) : Bool :=
-  if k ≥ 0 then num ≥ den * 10 ^ k.toNat else num * 10 ^ (-k).toNat ≥ den
-
-/-- the decimal point position `k` of a positive rational: `10^(k-1) ≤ num/den < 10^k` -/
-def decPoint (num den : Nat) : Int :=
-  let est : Int := (((bitLength num : Int) - (bitLength den : Int)) * 30103) / 100000
-  -- the estimate is within 1 of the answer; walk to it
-  let k := est - 2
-  let k := if geP10 num den (k + 1) then k + 1 else k
-  let k := if geP10 num den (k + 1) then k + 1 else k
-  let k := if geP10 num den (k + 1) then k + 1 else k
-  let k := if geP10 num den (k + 1) then k + 1 else k
-  k + 1
-
-def stripZerosAux : Nat → Nat → Nat
-  | 0, n => n
-  | fuel + 1, n => if n != 0 && n % 10 == 0 then stripZerosAux fuel (n / 10) else n
-
-/-- one step of the shortest-digits search: the `n`-digit decimals just below and just above
-`num/den`; the one that reads back as `x` (the nearer one if both do) -/
-def shortestAt (x : RF) (num den : Nat) (k : Int) (n : Nat) : Option (Nat × Int) :=
-  -- scaled = num/den * 10^(n-k)
-  let sh : Int := (n : Int) - k
-  let (a, b) : Nat × Nat := if sh ≥ 0 then (num * 10 ^ sh.toNat, den) else (num, den * 10 ^ (-sh).toNat)
-  let lo := a / b
-  let hi := lo + 1
-  let back (d : Nat) : Bool :=
-    let r : Rat := if sh ≥ 0 then (d : Rat) / ((10 ^ sh.toNat : Nat) : Rat) else ((d * 10 ^ (-sh).toNat : Nat) : Rat)
-    match toF64 r with
-    | .fin y => y.beqVal x
-    | _ => false
-  let okLo := lo != 0 && back lo
-  let okHi := back hi
-  -- distance of lo, hi to the value, in units of 1/b: a - lo*b, hi*b - a
-  let pick : Option Nat :=
-    if okLo && okHi then
-      (if a - lo * b < hi * b - a then some lo
-       else if a - lo * b > hi * b - a then some hi
-       else some (if lo % 2 == 0 then lo else hi))
-    else if okLo then some lo
-    else if okHi then some hi
-    else none
-  pick.map (fun d => (d, k - n))
-
-def shortestLoop (x : RF) (num den : Nat) (k : Int) : Nat → Nat → Option (Nat × Int)
-  | 0, _ => none
-  | fuel + 1, n =>
-    match shortestAt x num den k n with
-    | some r => some r
-    | none => shortestLoop x num den k fuel (n + 1)
-
-/-- shortest decimal `(D, e10)` with `D·10^e10` reading back as the positive binary64 number `x`
-(David Gay's mode 0, which `repr(float)` uses) -/
-def shortest (x : RF) : Nat × Int :=
-  let (num, den) : Nat × Nat := if x.exp ≥ 0 then (x.c * 2 ^ x.exp.toNat, 1) else (x.c, 2 ^ (-x.exp).toNat)
-  let k := decPoint num den
-  match shortestLoop x num den k 17 1 with
-  | some (d, e) =>
-    let d' := stripZerosAux 20 d
-    let z := (natDigits d).length - (natDigits d').length
-    (d', e + z)
-  | none => (0, 0)
-
-def zeros (n : Nat) : List Char := List.replicate n '0'
-
-/-- `repr(x)` / `str(x)` of a positive finite float (`float_repr_style == 'short'`, format code `'r'`) -/
-def reprPos (x : RF) : List Char :=
-  let (d, e10) := shortest x
-  let ds := natDigits d
-  let n := ds.length
-  let decpt : Int := e10 + n
-  if decpt ≤ -4 || decpt > 16 then
-    let e := decpt - 1
-    let ed := natDigits e.natAbs
-    let ed := if ed.length < 2 then '0' :: ed else ed
-    ds.take 1 ++ (if n > 1 then '.' :: ds.drop 1 else []) ++ 'e' :: (if e < 0 then '-' else '+') :: ed
-  else if decpt ≤ 0 then '0' :: '.' :: zeros (-decpt).toNat ++ ds
-  else if decpt ≥ n then ds ++ zeros (decpt.toNat - n) ++ ['.', '0']
-  else ds.take decpt.toNat ++ '.' :: ds.drop decpt.toNat
-
-/-- `str(v)` for a Python float -/
-def reprFloat : FV → List Char
-  | .nan _ => ['n', 'a', 'n']
-  | .inf s => (if s then ['-'] else []) ++ ['i', 'n', 'f']
-  | .fin x =>
-    (if x.s then ['-'] else []) ++ (if x.c = 0 then ['0', '.', '0'] else reprPos { x with s := false })
-
 /-! ### the Python tokenizer's numeric literal -/
 
+/-- the `ast.Constant` of a numeric token.  For a float the digit groups are kept as written
+(without the `_` separators): that is the text the front end re-reads. -/
 inductive PyConst
   | int (n : Nat)
-  | float (v : FV)
+  | float (ip fp : List Char) (ex : Option (List Char))   -- exponent: optional sign, digits
   | imag
 deriving DecidableEq, Repr, Inhabited
 
@@ -381,73 +274,94 @@ def prefixedInt (base : Nat) (p : Char → Bool) (cs : List Char) : Except LErr 
   | some (ds, []) => if ds.isEmpty then .error .syntax else .ok (.int (horner base ds))
   | _ => .error .syntax
 
-/-- a numeric literal token of Python source: its `ast.Constant` value -/
-def pyNumber (cs : List Char) : Except LErr PyConst :=
-  match cs with
-  | '0' :: 'x' :: r | '0' :: 'X' :: r => prefixedInt 16 isHex r
-  | '0' :: 'o' :: r | '0' :: 'O' :: r => prefixedInt 8 (fun c => isDig c && c != '8' && c != '9') r
-  | '0' :: 'b' :: r | '0' :: 'B' :: r => prefixedInt 2 (fun c => c == '0' || c == '1') r
-  | _ =>
-    match digitPart isDig cs with
+/-- `["." [digitpart]]`: was there a point, the fraction digits, the rest -/
+def pyFraction (r1 : List Char) : Option (Bool × List Char × List Char) :=
+  match r1 with
+  | '.' :: r2 =>
+    match digitPart isDig r2 with
+    | none => none
+    | some (fp, r3) => some (true, fp, r3)
+  | _ => some (false, [], r1)
+
+/-- `[("e"|"E") ["+"|"-"] digitpart]`: the exponent text (sign and digits), the rest -/
+def pyExponent (r3 : List Char) : Option (Option (List Char) × List Char) :=
+  match r3 with
+  | c :: r4 =>
+    if c == 'e' || c == 'E' then
+      let (sg, r5) := matchSign r4
+      match digitPart isDig r5 with
+      | some (ed, r6) =>
+        if ed.isEmpty then none
+        else some (some (match sg with | some s => s :: ed | none => ed), r6)
+      | none => none
+    else some (none, r3)
+  | [] => some (none, [])
+
+/-- a decimal token: `decinteger | floatnumber | imagnumber` -/
+def pyDecimal (cs : List Char) : Except LErr PyConst :=
+  match digitPart isDig cs with
+  | none => .error .syntax
+  | some (ip, r1) =>
+    match pyFraction r1 with
     | none => .error .syntax
-    | some (ip, r1) =>
-      -- fraction
-      let fr : Option (Bool × List Char × List Char) :=
-        match r1 with
-        | '.' :: r2 =>
-          match digitPart isDig r2 with
-          | none => none
-          | some (fp, r3) => some (true, fp, r3)
-        | _ => some (false, [], r1)
-      match fr with
+    | some (dot, fp, r3) =>
+      if ip.isEmpty && fp.isEmpty then .error .syntax else
+      match pyExponent r3 with
       | none => .error .syntax
-      | some (dot, fp, r3) =>
-        if ip.isEmpty && fp.isEmpty then .error .syntax else
-        -- exponent
-        let ex : Option (Option Int × List Char) :=
-          match r3 with
-          | c :: r4 =>
-            if c == 'e' || c == 'E' then
-              let (sg, r5) := matchSign r4
-              match digitPart isDig r5 with
-              | some (ed, r6) =>
-                if ed.isEmpty then none
-                else some (some (if sg == some '-' then -(horner 10 ed : Int) else (horner 10 ed : Int)), r6)
-              | none => none
-            else some (none, r3)
-          | [] => some (none, [])
-        match ex with
-        | none => .error .syntax
-        | some (e, r6) =>
-          let isFloat := dot || e.isSome
-          match r6 with
-          | [] =>
-            if isFloat then
-              let m : Nat := horner 10 (ip ++ fp)
-              let sc : Int := e.getD 0 - fp.length
-              let r : Rat := if sc ≥ 0 then ((m * 10 ^ sc.toNat : Nat) : Rat) else (m : Rat) / ((10 ^ (-sc).toNat : Nat) : Rat)
-              .ok (.float (toF64 r))
-            else
-              -- decinteger: no leading zeros unless the value is zero
-              if ip.head? == some '0' && ip.any (· != '0') then .error .syntax
-              else if ip.length > maxStrDigits then .error .syntax   -- "Exceeds the limit (4300 digits)"
-              else .ok (.int (horner 10 ip))
-          | [c] => if c == 'j' || c == 'J' then .ok .imag else .error .syntax
-          | _ => .error .syntax
+      | some (e, r6) =>
+        match r6 with
+        | [] =>
+          if dot || e.isSome then .ok (.float ip fp e)
+          else
+            -- decinteger: no leading zeros unless the value is zero
+            if ip.head? == some '0' && ip.any (· != '0') then .error .syntax
+            else if ip.length > maxStrDigits then .error .syntax   -- "Exceeds the limit (4300 digits)"
+            else .ok (.int (horner 10 ip))
+        | [c] => if c == 'j' || c == 'J' then .ok .imag else .error .syntax
+        | _ => .error .syntax
+
+/-- a numeric literal token of Python source: its `ast.Constant` value.
+(The decimal forms and the prefixed forms are disjoint: after a leading `0` a decimal token
+continues with a digit, `_`, `.`, `e`, `E`, `j` or `J`, never with a radix letter.) -/
+def pyNumber (cs : List Char) : Except LErr PyConst :=
+  match pyDecimal cs with
+  | .ok v => .ok v
+  | .error e =>
+    match cs with
+    | '0' :: 'x' :: r | '0' :: 'X' :: r => prefixedInt 16 isHex r
+    | '0' :: 'o' :: r | '0' :: 'O' :: r => prefixedInt 8 (fun c => isDig c && c != '8' && c != '9') r
+    | '0' :: 'b' :: r | '0' :: 'B' :: r => prefixedInt 2 (fun c => c == '0' || c == '1') r
+    | _ => .error e
 
 /-! ### the FPy front end -/
 
-/-- `Parser._parse_constant` on a numeric `ast.Constant`:
-an `int` is kept; a `float` is an `Integer` if integral, else a `Decnum` of `str(value)` -/
+/-- `Parser._float_literal_text`: the literal's text normalised to a `Decnum` spelling
+(digits on both sides of the point, lowercase `e`) -/
+def floatText (ip fp : List Char) (ex : Option (List Char)) : List Char :=
+  (if ip.isEmpty then ['0'] else ip) ++ '.' :: (if fp.isEmpty then ['0'] else fp) ++
+    (match ex with | some e => 'e' :: e | none => [])
+
+/-- `_MAX_EXPONENT_DIGITS` -/
+def maxExponentDigits : Nat := 6
+
+/-- `len(exp.lstrip('+-').lstrip('0'))` -/
+def expDigits (e : List Char) : Nat :=
+  ((e.dropWhile (fun c => c == '+' || c == '-')).dropWhile (· == '0')).length
+
+/-- `Parser._parse_float_constant`: the exponent may have at most 6 significant digits, the value
+is that of the spelling (a `ValueError` of `int()`'s digit limit becomes a parse error);
+an integral value is an `Integer`, any other a `Decnum` of the normalised text -/
+def parseFloat (ip fp : List Char) (ex : Option (List Char)) : Except LErr Node :=
+  let text := floatText ip fp ex
+  if expDigits (ex.getD []) > maxExponentDigits then .error .parse
+  else match decnum text with
+    | .error _ => .error .parse
+    | .ok v => if v.den == 1 then .ok (.integer v.num) else .ok (.decnum text)
+
+/-- `Parser._parse_constant` on a numeric `ast.Constant` -/
 def parseConstant : PyConst → Except LErr Node
   | .int n => .ok (.integer n)
-  | .float v =>
-    match v with
-    | .fin x =>
-      match x.toInt? with
-      | some i => .ok (.integer i)
-      | none => .ok (.decnum (reprFloat v))
-    | _ => .ok (.decnum (reprFloat v))
+  | .float ip fp ex => parseFloat ip fp ex
   | .imag => .error .parse
 
 /-- source expressions that denote constants -/
@@ -462,18 +376,28 @@ deriving Repr, Inhabited
 
 def negZeroText : List Char := ['-', '0', '.', '0']
 
-/-- `Parser._parse_unaryop` for `USub` applied to an already parsed operand -/
+/-- `Parser._parse_unaryop` for `USub` applied to an already parsed operand: a zero literal is
+folded to the zero literal of the opposite sign -/
 def negFold (arg : Node) : Except LErr Node :=
   if arg.isRationalVal then do
     let r ← arg.asRational
-    if r == 0 then pure (.decnum negZeroText)
+    if r == 0 then
+      match (← arg.asReal) with
+      | .negZero => pure (.integer 0)
+      | .rat _ => pure (.decnum negZeroText)
     else match arg with
       | .integer v => pure (.integer (-v))
       | _ => pure (.neg arg)
   else pure (.neg arg)
 
+/-- `Parser._parse_integer_arg`: an `Integer`, or a `Decnum` with an integral value
+(the folded `-0`) -/
 def asInteger : Node → Except LErr Int
   | .integer v => .ok v
+  | .decnum s =>
+    match decnum s with
+    | .error e => .error e
+    | .ok r => if r.den == 1 then .ok r.num else .error .parse
   | _ => .error .parse
 
 /-- `Parser._parse_expr` restricted to constant expressions -/
